@@ -20,33 +20,33 @@ ASSUMPTIONS = ["non-negative integer items", "bounds as listed in evidence.cover
 
 def bounds(tier):
     q = tier == "quick"
-    return {"dense": f"values 0..6, 1..{8 if q else 10} items, every bound 1..n and default",
-            "spread": f"alphabets fibonacci (1,2,3,5,8,13,21) and powers of two, 1..{6 if q else 8} items",
+    return {"dense": f"values 0..6, 1..{8 if q else 11} items, every bound 1..n and default",
+            "spread": f"alphabets fibonacci (1,2,3,5,8,13,21) and powers of two, 1..{6 if q else 9} items",
             "dict": "values 0..4, 1..5 items, dict with string names",
-            "long-thin": f"9..{15 if q else 24} items over {{1,2}}, 9..{12 if q else 16} over {{1,2,3}}, 9..{11 if q else 13} over {{0,1,5}} and {{2,3,7}}, every bound 1..n and default, non-sorted presentation",
-            "offset": f"letters {{b/2+7, b+1, b+5, b+6, 2b+1, 2b+8}} for b in {{1e5, 1e6, 2**24, 1e9}}, 2..{6 if q else 7} items, every bound",
-            "dense10": f"values 0..10, 1..{6 if q else 7} items, every bound" + ("; values 0..6 with exactly 9 items" if q else ""),
-            "big": f"values {{0, 1, 2**24+1, 2**31+1, 2**32+3, 2**40+5}}, 1..{6 if q else 7} items, every bound"}
+            "long-thin": f"9..{15 if q else 25} items over {{1,2}}, 9..{12 if q else 17} over {{1,2,3}}, 9..{11 if q else 14} over {{0,1,5}} and {{2,3,7}}, every bound 1..n and default, non-sorted presentation",
+            "offset": f"letters {{b/2+7, b+1, b+5, b+6, 2b+1, 2b+8}} for b in {{1e5, 1e6, 2**24, 1e9}}, 2..{6 if q else 8} items, every bound",
+            "dense10": f"values 0..10, 1..{6 if q else 8} items, every bound" + ("; values 0..6 with exactly 9 items" if q else ""),
+            "big": f"values {{0, 1, 2**24+1, 2**31+1, 2**32+3, 2**40+5}}, 1..{6 if q else 8} items, every bound"}
 
 
 def tasks(tier):
     q = tier == "quick"
     ts = []
-    for ch in scopes.chunk_multisets(range(0, 7), 1, 8 if q else 10, 150):
+    for ch in scopes.chunk_multisets(range(0, 7), 1, 8 if q else 11, 150):
         ts.append(("dense", ch, "list"))
     for alpha in ((1, 2, 3, 5, 8, 13, 21), (1, 2, 4, 8, 16, 32)):
-        for ch in scopes.chunk_multisets(alpha, 1, 6 if q else 8, 150):
+        for ch in scopes.chunk_multisets(alpha, 1, 6 if q else 9, 150):
             ts.append(("spread", ch, "list"))
     for ch in scopes.chunk_multisets(range(0, 5), 1, 5, 100):
         ts.append(("dict", ch, "dict_str"))
     # many items over tiny alphabets (reachable (cardinality, sum) pairs stay few: the oracle is polynomial) and big magnitudes
     for ch in spaces.chunked(scopes.long_thin_multisets(tier), 10):
         ts.append(("long-thin", ch, "list"))
-    for ch in scopes.chunk_multisets(scopes.BIG_VALUES, 1, 6 if q else 7, 60):
+    for ch in scopes.chunk_multisets(scopes.BIG_VALUES, 1, 6 if q else 8, 60):
         ts.append(("big", ch, "list"))
-    for ch in spaces.chunked(scopes.offset_multisets(2, 6 if q else 7), 60):
+    for ch in spaces.chunked(scopes.offset_multisets(2, 6 if q else 8), 60):
         ts.append(("offset", ch, "list"))
-    for ch in scopes.chunk_multisets(range(0, 11), 1, 6 if q else 7, 200):
+    for ch in scopes.chunk_multisets(range(0, 11), 1, 6 if q else 8, 200):
         ts.append(("dense10", ch, "list"))
     if q:
         for ch in scopes.chunk_multisets(range(0, 7), 9, 9, 150):
